@@ -170,6 +170,9 @@ func main() {
 			emit(g.mutate(d))
 			rep.Count("stream.random_mutated", 1)
 		}
+		if i%10 == 1 { // every single-token deletion and duplication of the document
+			tokenMutations(d, 32, func(b []byte) { emit(b); rep.Count("stream.token_mutated", 1) })
+		}
 		if i%10 == 0 { // several documents in one input (multi-document mode)
 			emit(append(append(append([]byte{}, d...), lib.Pick(g.r, []string{" ", "\n", "", ","})...), g.doc()...))
 			rep.Count("stream.random_multi", 1)
